@@ -76,8 +76,14 @@ def make_native_dict(cls, data):
     inst = make_instance(cls, data)
     pb = cls.pb(inst) if (hasattr(cls, "pb") and hasattr(cls, "meta")) else inst
 
-    def val(fd, v):
+    plus = pb is not inst
+
+    def val(fd, v, in_map=False):
         if fd.message_type is not None:
+            if in_map and not plus:      # protobuf constructors want message INSTANCES as map values
+                c = type(v)()
+                c.CopyFrom(v)
+                return c
             return conv(v)
         return v
 
@@ -86,7 +92,7 @@ def make_native_dict(cls, data):
         for fd, v in m.ListFields():
             if fd.message_type is not None and fd.message_type.GetOptions().map_entry:
                 vf = fd.message_type.fields_by_name["value"]
-                out[fd.name] = {k: val(vf, x) for k, x in v.items()}
+                out[fd.name] = {k: val(vf, x, True) for k, x in v.items()}
             elif fd.label == fd.LABEL_REPEATED:
                 out[fd.name] = [val(fd, x) for x in v]
             else:
